@@ -10,7 +10,7 @@ from framework.core import Facet, Violation, sut
 from oracles import scores as OS
 
 PROPERTY_ID = "C13"
-TECHNIQUE = "exhaustive enumeration of all integer tuples in [-2,n+2]^k for 17 scorers against a validity predicate + definitional values; Hypothesis-generated malformed arrays"
+TECHNIQUE = "exhaustive enumeration of all integer tuples in [-2,n+2]^k for 18 scorers (17 built-in configurations and a user-defined local score with its own _check_cuts) against a validity predicate + definitional values; Hypothesis-generated malformed arrays"
 ASSUMPTIONS = [
     "box facet: fixed well-conditioned data matrix per (n, p); definitional values compared at 1e-6 relative",
     "minimum sizes as documented: 1 (L2, CUSUM, L2Saving), 2 (univariate Gaussian), p+1 (multivariate Gaussian, both parameter modes)",
@@ -37,6 +37,8 @@ SCORERS = {
     "LocalAnomalyScore(L2Cost)": ("local", "L2Cost", None),
     "LocalAnomalyScore(GaussianVarCost)": ("local", "GaussianVarCost", None),
     "LocalAnomalyScore(GaussianCovCost)": ("local", "GaussianCovCost", None),
+    # a user-defined scorer that overrides _check_cuts the way the library's own LocalAnomalyScore does
+    "DirectLocalMeanScore(user)": ("userlocal", None, None),
 }
 
 
@@ -46,6 +48,10 @@ def build_scorer(name):
     from skchange.change_scores import CUSUM, ChangeScore
 
     kind, cost, param = SCORERS[name]
+    if kind == "userlocal":
+        from userdefs.scorers import DirectLocalMeanScore
+
+        return DirectLocalMeanScore(1)
     if kind == "cost":
         return build_cost(cost, param)
     if kind == "cusum":
@@ -60,7 +66,7 @@ def build_scorer(name):
 
 
 def width(name):
-    return {"cost": 2, "cusum": 3, "change": 3, "l2saving": 2, "saving": 2, "local": 4}[SCORERS[name][0]]
+    return {"cost": 2, "cusum": 3, "change": 3, "l2saving": 2, "saving": 2, "local": 4, "userlocal": 4}[SCORERS[name][0]]
 
 
 def min_size(name, p):
@@ -76,13 +82,17 @@ def is_valid(name, p, n, cut):
     if cut[0] < 0 or cut[-1] > n:
         return False
     d = [b - a for a, b in zip(cut[:-1], cut[1:])]
-    if kind == "local":
+    if kind in ("local", "userlocal"):
         return all(x >= 1 for x in d) and d[1] >= ms and d[0] + d[2] >= ms
     return all(x >= ms for x in d)
 
 
 def expected_value(name, X, cut):
     kind, cost, param = SCORERS[name]
+    if kind == "userlocal":
+        from userdefs.scorers import DirectLocalMeanScore
+
+        return DirectLocalMeanScore.value(np.asarray(X, dtype=float), *cut)
     if kind == "cost":
         return OS.cost_value(cost, param, X[cut[0]:cut[1]])
     if kind == "cusum":
@@ -361,9 +371,42 @@ def check_fuzz_case(case):
     return check_case(case)
 
 
+def shared_cost_cells(tier):
+    for cost in ("L2Cost", "GaussianVarCost"):
+        for det in ("PELT", "MovingWindow", "SeededBinarySegmentation"):
+            for n_small, n_big in ((10, 40), (8, 9), (12, 60)):
+                yield {"cost": cost, "detector": det, "n_small": n_small, "n_big": n_big}
+
+
+def check_shared_cost(case):
+    """A local anomaly score is fitted on a short series; a detector that holds the same cost object is then run
+    on a longer one (and refits the cost). Cuts beyond the local score's own fitted data must still be rejected."""
+    from checks import common as K
+    from skchange.anomaly_scores import LocalAnomalyScore
+
+    cost = K.build({"cls": case["cost"]})
+    ns, nb = case["n_small"], case["n_big"]
+    las = LocalAnomalyScore(cost).fit(fixed_data(ns, 1))
+    key = {"PELT": "cost", "MovingWindow": "change_score", "SeededBinarySegmentation": "change_score"}[case["detector"]]
+    extra = {"MovingWindow": {"bandwidth": 3}, "PELT": {"min_segment_length": 2}, "SeededBinarySegmentation": {"min_segment_length": 2}}[case["detector"]]
+    with sut("detector sharing the cost object"):
+        K.registry()[case["detector"]](**{key: cost}, **extra).fit(fixed_data(nb, 1)).predict(fixed_data(nb, 1))
+    n_checked = 0
+    for cut in ([0, 2, 5, ns + 1], [0, 3, 6, nb], [1, 4, ns, ns + 3], [-1, 2, 5, 7]):
+        if cut[-1] <= ns and cut[0] >= 0:
+            continue
+        outcome, out, err = evaluate_outcome(las, np.asarray([cut], dtype=np.int64))
+        n_checked += 1
+        if outcome != "ValueError":
+            raise Violation(f"cut outside the scorer's fitted data gave {outcome} instead of ValueError after a detector "
+                            "refitted the shared cost on longer data", cut=cut, n_fitted=ns, n_refit=nb, cost=case["cost"],
+                            detector=case["detector"], value=np.asarray(out).tolist() if outcome == "value" else None)
+    return {"nontrivial": True, "weight": n_checked, "classes": [f"det={case['detector']}"]}
+
+
 FACETS = [
     Facet(name="integer_box", kind="enumerate", enumerate=box_cases, check=check_box, exhaustive=True,
-          rule=("every integer tuple of [-2,n+2]^k (k=2,3,4) for n in {4,5,6} (thorough: up to 8 for k<=3), p in {1,2}, 17 scorers; "
+          rule=("every integer tuple of [-2,n+2]^k (k=2,3,4) for n in {4,5,6} (thorough: up to 8 for k<=3), p in {1,2}, 18 scorers (17 built-in configurations and a user-defined local score with its own _check_cuts); "
                 "invalid => ValueError, valid => accepted and equal to the definitional value, the same tuple as uint64/uint8/int32 must behave identically; non-trivial = tuples that "
                 "are strictly increasing but reach outside 0..n (each tuple visited once, so distinct by construction)"),
           shards_quick=16, shards_thorough=16, max_samples=2),
@@ -371,6 +414,11 @@ FACETS = [
           rule=("batches mixing valid and invalid rows, float / integral-float / bool / int32 / wrong-width / 0-row / 3-D "
                 "arrays, nested lists, 1-D row vectors, empty list, descending rows in unsigned dtypes, rows whose difference overflows a narrow signed dtype, flat sequences holding several cuts, pandas containers (float / bool rejected, int64 accepted); every case is non-trivial"),
           n_quick=600, n_thorough=6000, shards_quick=4, shards_thorough=8),
+    Facet(name="shared_cost_refit", kind="enumerate", enumerate=shared_cost_cells, check=check_shared_cost, exhaustive=True,
+          rule=("LocalAnomalyScore(cost) fitted on n_small samples, then PELT / MovingWindow / SeededBinSeg holding the same cost "
+                "object run on n_big > n_small samples; cuts reaching beyond n_small (or below 0) must still raise ValueError; "
+                "18 cells x up to 4 cuts, every cell non-trivial"),
+          shards_quick=2, shards_thorough=2),
     Facet(name="fuzz_cuts", kind="external", external=fuzz_cuts_campaign, check=check_fuzz_case,
           rule=("coverage-guided fuzzing (atheris / libFuzzer, coverage of the skchange package) of evaluate's cuts argument: bytes "
                 "are decoded into scorer x n x p x container {ndarray, list, tuple rows, DataFrame, Series, flat} x dtype {8 integer "
